@@ -313,4 +313,48 @@ theorem ElemRdS.enum_undeclared (env : Env F) (hcfg : env.lex.criSkipsComments =
   rw [cri_seps env.lex hcfg after ha _ rest d false sk .warning hd]
   simp
 
+/-- `ReadEntityRef` on `#digits` naming no instance of the file, or one of a non-conforming type: nothing stored, WARNING -/
+theorem readEntityRef_bad (lex : LexCfg) (hcfg : lex.criSkipsComments = true) (lookup : Int → RefLookup)
+    (ds : List Byte) (hne : ds ≠ []) (hds : ds.all isDigit = true) (hhi : ((digitsVal ds 0 : Nat) : Int) ≤ intMax)
+    (hbad : lookup ((digitsVal ds 0 : Nat) : Int) ≠ .found)
+    (l : List Byte) (sk : Bool) (seps : List Byte) (hs : Seps seps) (d : Byte) (rest : List Byte) (hd : d = 44 ∨ d = 41) :
+    readEntityRef lex lookup (some attrDelims) (G l (35 :: (ds ++ (seps ++ d :: rest))) sk) .null =
+      (none, G (seps.reverse ++ (ds.reverse ++ 35 :: l)) (d :: rest) sk, .warning) := by
+  obtain ⟨x, xr, hx, hxd⟩ := seps_head_not_digit seps hs d rest hd
+  simp only [readEntityRef, refTail]
+  rw [show (G l (35 :: (ds ++ (seps ++ d :: rest))) sk).ws = G l (35 :: (ds ++ (seps ++ d :: rest))) sk from ws_good0 l 35 _ sk (by decide)]
+  rw [getChar_G l 35 _ sk (by decide)]
+  simp only [Option.getD_some, beq_self_eq_true, Bool.true_or, Option.isSome_some, Bool.and_self, if_true]
+  rw [hx, extractInt32_digits ds hne hds hhi (35 :: l) x xr sk hxd, ← hx]
+  have hcri := cri_seps lex hcfg seps hs (ds.reverse ++ 35 :: l) rest d false sk Sev.null hd
+  cases hlk : lookup ((digitsVal ds 0 : Nat) : Int) with
+  | found => exact absurd hlk hbad
+  | wrongType => simp [IStream.failed, hcri, hlk]; rfl
+  | missing => simp [IStream.failed, hcri, hlk]; rfl
+
+/-- **a dangling or wrong-type reference in an aggregate of entities**: `#id` where the file has no instance `id` or one whose
+    type does not conform: the element is unset, WARNING -/
+theorem ElemRdS.ref_bad (env : Env F) (hcfg : env.lex.criSkipsComments = true) (hagg : env.cfg.aggrSkipsComments = true)
+    (tg : String) (ds : List Byte) (hne : ds ≠ []) (hds : ds.all isDigit = true) (hhi : ((digitsVal ds 0 : Nat) : Int) ≤ intMax)
+    (hbad : refLookup env.lookup tg ((digitsVal ds 0 : Nat) : Int) ≠ .found)
+    (before after : List Byte) (hb : Seps before) (ha : Seps after) :
+    ElemRdS env (.entity tg) { tok := 35 :: ds, before := before, after := after, v := .atom .unset } .warning := by
+  refine ⟨hb, ⟨35, ds, rfl, by decide, by decide, by decide, by decide⟩, ?_⟩
+  intro l sk d rest hd
+  refine ⟨sk, Or.inl rfl, ?_⟩
+  have hr := readEntityRef_bad env.lex hcfg (refLookup env.lookup tg) ds hne hds hhi hbad l sk after ha d rest hd
+  show elemRead env (.entity tg) (G l (35 :: ds ++ (after ++ d :: rest)) sk) = _
+  simp only [List.cons_append]
+  rw [elemRead_at_tok env hagg _ l 35 _ sk (by decide) (by decide) (by decide) (by decide),
+    elemReadCore_scalar env (.entity tg) (Or.inr (Or.inr (Or.inr (Or.inr (Or.inr (Or.inr (Or.inr ⟨tg, rfl⟩)))))))]
+  have hsn : scalarNodeRead env (.entity tg) (G l (35 :: (ds ++ (after ++ d :: rest))) sk) =
+      .ok (.warning, .unset, G (after.reverse ++ (ds.reverse ++ 35 :: l)) (d :: rest) sk) := by
+    unfold scalarNodeRead
+    simp only [hr, pure, Except.pure]
+  simp only [bind, Except.bind, pure, Except.pure, hsn]
+  have hcri := cri_seps env.lex hcfg [] (Seps.blanks [] (by simp)) (after.reverse ++ (ds.reverse ++ 35 :: l)) rest d false sk .warning hd
+  simp only [List.nil_append, List.reverse_nil] at hcri
+  rw [hcri]
+  simp
+
 end StepModel.P21.RLemmas
